@@ -203,7 +203,8 @@ def run(ctx: Ctx):
     s.finish()
     s = Stream(ctx, "LayeredArchitecture histories: random, names sharing characters")
     rng = ctx.rng("larch")
-    names = ["mod", "m", "dom", "mo", "mod.x", "o"]
+    # also names with leading / trailing blanks (as `"a, m".split(",")` produces them): they are names like any other
+    names = ["mod", "m", "dom", "mo", "mod.x", "o", " m", "m ", "\tmod"]
     seqs = []
     for _ in range(ctx.size(4000, 60000)):
         n = rng.randint(2, 10)
